@@ -69,6 +69,8 @@ def run(prop, tier, replay=None):
         for fld, dflt in (("dirarg", False), ("compat", False), ("rel", False), ("pre2", []), ("app2", [])):      # replay files written before a field existed
             scn.setdefault(fld, dflt)
         for d_ in scn["docs"]:
+            for t_ in d_["tests"]:
+                t_.setdefault("sab", False)
             d_.setdefault("tdef", -1)
             d_.setdefault("sdef", "unset")
         chosen = [{"sc": scn, "predict": None}]
@@ -107,7 +109,7 @@ def run(prop, tier, replay=None):
                         if t["det"] and len(ts) == 3 and any(u["dur"] > 0 or u["beh"] == "signal" or u["code"] == 80 for u in ts[i + 1:]):
                             return True
                 return False
-            small = [v for v in allsc if sum(len(d["tests"]) for d in v["sc"]["docs"]) <= 1 or (prop in ("C20", "C05") and rare(v)) or detcut(v) or v["sc"].get("compat") or v["sc"].get("rel") or v["sc"]["via"] == "fm2"
+            small = [v for v in allsc if sum(len(d["tests"]) for d in v["sc"]["docs"]) <= 1 or (prop in ("C20", "C05") and rare(v)) or detcut(v) or v["sc"].get("compat") or v["sc"].get("rel") or v["sc"]["via"] == "fm2" or any(t.get("sab") for d in v["sc"]["docs"] for t in d["tests"])
                      or (prop == "C05" and (v["sc"]["pre"] or v["sc"]["app"] or any(d.get("sdef", "unset") != "unset" for d in v["sc"]["docs"])))
                      or (prop == "C15" and any(t["beh"] == "signal" for d in v["sc"]["docs"] for t in d["tests"]))
                      or any(t["beh"] == "exitscript" and t["code"] == 3 for d in v["sc"]["docs"] for t in d["tests"])
